@@ -56,7 +56,7 @@ PROPS = {
         design_ref="DESIGN.md section 5, C19",
         level_text="Executable model of the header tokenizer incl. the RFC 2047 decoder, tied by correspondence on seeded header sections under the three syntax policies and a reader fault; "
                    "theorems: the round trip for clean fields (C19_clean_roundtrip: for every non-empty list of fields with canonical names, values without edge white space or LF and no '=?' in the line, every policy and every continuation, parse(write fs) = fs with no findings), decoder is the identity on lines without '=?', and kernel-checked witnesses that the full statement is false exactly through encoded-words and edge white space, both listed findings; "
-                   "the fixpoint oracle runs on the implementation for every generated section",
+                   "the fixpoint oracle runs on the implementation for every generated section Session 3: writer-side model (a writer that fails once at any position): C19_write_all_or_error, C01_marshal_all_or_error, tied by kind wfault",
         level_note="Trusted: Lean kernel, correspondence harness. The property as stated is false on the pinned tree (two open findings); what holds is proved: the fixpoint for clean fields, unbounded.",
     ),
     "C01": dict(
@@ -92,7 +92,7 @@ PROPS = {
         design_ref="DESIGN.md section 5, C02",
         level_text="Model of Build compared with the implementation on seeded builder inputs x 81 policy combinations x repair flags x algorithms x encodings; the oracle recomputes Content-Length and digests "
                    "from the serialized bytes with crypto/* and re-runs every case with four other feeding manners and thresholds; theorems: C02_build_truthful (every record Build returns without error, under spec warn/fail with the default repair options, has Content-Length = decimal length of its block and a truthful WARC-Block-Digest, for every header, content, type and oracle verdict), C02_validate_truthful (the same postcondition for ValidateDigest on any block), the added digest is name:encode(H(alg, exactly the block / payload bytes)), "
-                   "head ++ payload = content, default algorithm/encoding, Set/Get law",
+                   "head ++ payload = content, default algorithm/encoding, Set/Get law Session 3: C02_length_every_policy and C02_digests_every_policy (builder-added Content-Length and digests are those of exactly the serialized block and payload under EVERY policy), C02_validate_payload",
         level_note=COMMON_NOTE,
     ),
     "C03": dict(
@@ -120,7 +120,7 @@ PROPS = {
         model_assumptions=["heap growth and wall-clock are only measured (worker watchdog 10 s, address-space cap), not proved", "panics inside klauspost/gzip, net/http, mime, whatwg-url are outside the model", "see level_note"],
         design_ref="DESIGN.md section 5, C05",
         level_text="All model functions are total Lean functions; the unbounded Go loops of the header parser are modelled with fuel and the fuel is PROVED adequate (C05_parse_total, C05_cont_total: with any larger fuel the result is the same, for every policy, stream and reader fault - so the loops end by themselves within stream length + 2 iterations, each consuming at least one byte); progress and partition lemmas for the line reader, the HTTP head scan and the junk search; C05_progress: whenever Unmarshal returns without error the remaining stream is strictly shorter than the one it was given (every policy, option, stream, end condition, validator verdict; gzip: the decoder reports at least one consumed byte), hence C05_read_until_error_terminates / readAllRecs_complete: the file reader's loop ends by itself with an error item (io.EOF or the first real error) and never for lack of fuel; "
-                   "the implementation is run on mutated/truncated/hostile records x option combinations x sticky reader faults in isolated worker processes (panic -> outcome, watchdog -> hang, memory cap) and every case is re-run under four chunking styles",
+                   "the implementation is run on mutated/truncated/hostile records x option combinations x sticky reader faults in isolated worker processes (panic -> outcome, watchdog -> hang, memory cap) and every case is re-run under four chunking styles Session 3: C05_progress and C05_read_until_error_terminates (every successful call consumes input; reading until the first error terminates), regenerated Unmarshal skeleton (C05_unmarshal_skeleton)",
         level_note=COMMON_NOTE,
     ),
     "C17": dict(
@@ -166,7 +166,7 @@ PROPS = {
                            "C07_repairs_only: with ANY repair options and policies, the header of the record Unmarshal returns equals the parsed header on every field other than Content-Length, WARC-Block-Digest and WARC-Payload-Digest: same names, values, multiplicities and relative order (others r.hdr = others fs)", "see level_note"],
         design_ref="DESIGN.md section 5, C07",
         level_text="Kernel-checked: header validation never alters a field under any policy; the header parser returns the same fields and stops at the same byte under any two syntax policies that accept; with the repair options off a record returned under ANY policy setting carries exactly the parsed fields and exactly the block framed by Content-Length "
-                   "(complete, never empty or shortened); protocol header ++ payload = content. Correspondence: every input parsed under all 81 policy combinations with repairs off, headers and drained blocks compared across policies on the implementation",
+                   "(complete, never empty or shortened); protocol header ++ payload = content. Correspondence: every input parsed under all 81 policy combinations with repairs off, headers and drained blocks compared across policies on the implementation Session 3: C07_repairs_only (with any repair options only Content-Length and the two digest fields of the parsed header can differ), C07_fault_explicit (a block cut short by a read error is never handed out), regenerated Unmarshal skeleton (C07_unmarshal_skeleton)",
         level_note=COMMON_NOTE,
     ),
     "C16": dict(
@@ -213,7 +213,7 @@ PROPS = {
         design_ref="DESIGN.md section 5, C04",
         level_text="State-machine model of singleWarcFileWriter (fit test, file creation, warcinfo, append, size tracking, close/rename/callback) with a reachable-state invariant: the tracked size equals the open file's length; theorems for every operation sequence: the reported offset is where "
                    "the record's bytes start and they stay there under all later operations, BytesWritten is the serialized length, sequential decoding visits the members at the prefix-sum offsets and ends at the file length; and the junk law for the full Unmarshal model and EVERY stream: reading again from a reported offset returns the same record (C04_junk, via a frame lemma over the validation monad). Correspondence on Write/Rotate/Close sequences through the public API "
-                   "with files read back by an independent scanner and by gowarc's reader",
+                   "with files read back by an independent scanner and by gowarc's reader Session 3: histories also contain records the marshaler fails on and records it segments (C04_seg_offset: one response naming the first segment); C04_offset_reads_back (a fresh reader at the reported offset returns exactly that record, clean); the model is tied to the source of singleWarcFileWriter by the regenerated file-effect skeleton (C04_writer_skeleton)",
         level_note="Trusted: Lean kernel, correspondence harness and its independent scanner. Modelled by hand: warcfile.go singleWarcFileWriter. Reader-side offset arithmetic (countingreader, bufio) is covered by the oracle only.",
     ),
     "C13": dict(
@@ -227,7 +227,7 @@ PROPS = {
                            "a record is never split across files by construction of the model (files are lists of whole members); that the bytes on disk are such lists is judged by the independent scanner"],
         design_ref="DESIGN.md section 5, C13",
         level_text="Same model as C04 with the warcinfo/callback invariant proved for every reachable state: each file starts with exactly its own warcinfo member and every other member is stamped with that file's warcinfo id (none without a generator); a record joins the open non-empty file iff the fit test passes, "
-                   "else it starts the next file; ids unique, open suffix iff current; exactly one callback per closed file with its id, true size and warcinfo id. Oracle on the implementation: scanner-whole files, warcinfo position/count/WARC-Filename, stamping, fit rule, suffixes at every step, callback arguments",
+                   "else it starts the next file; ids unique, open suffix iff current; exactly one callback per closed file with its id, true size and warcinfo id. Oracle on the implementation: scanner-whole files, warcinfo position/count/WARC-Filename, stamping, fit rule, suffixes at every step, callback arguments Session 3: C13_seg_fit (the continuation of a segmented record is fitted against the file including the first segment), C13_final_name (the final name is generated name + compression suffix for every generated name), model of PatternNameGenerator with C13_generator_names_unique, regenerated writer skeleton (C13_writer_skeleton)",
         level_note="Trusted: Lean kernel, correspondence harness and its independent scanner. Modelled by hand: warcfile.go singleWarcFileWriter.",
     ),
     "C06": dict(
@@ -259,7 +259,7 @@ PROPS = {
                            "writing into a builder after its buffer was closed, and using a record that was returned together with an error for anything but Close, are outside the statement"],
         design_ref="DESIGN.md section 5, C15",
         level_text="Ownership model of spill buffers (builder, built record, parsed record, derived and merged records, file reader) with the invariant that every buffer that is not closed is reachable from an open handle, and the theorem that closing every handle - any order, repeated - leaves no temp file and no descriptor, for every scenario. "
-                   "Correspondence: after EVERY step of generated scenarios (sizes around the threshold, every block kind, read faults at arbitrary positions of the input, failing marshal targets, rejected reader offsets, Close in any order and twice) the number of temp files and descriptors measured on the implementation must equal the model's; zero after closing everything is judged on the implementation",
+                   "Correspondence: after EVERY step of generated scenarios (sizes around the threshold, every block kind, read faults at arbitrary positions of the input, failing marshal targets, rejected reader offsets, Close in any order and twice) the number of temp files and descriptors measured on the implementation must equal the model's; zero after closing everything is judged on the implementation Session 3: Close is not terminal for a buffer that has not spilled and a record's Close takes effect once (RBuf.shut, RHandle.once): Close-Write-Close histories are inside the quantifier; C15_close_releases",
         level_note="Trusted: Lean kernel, correspondence harness (directory listing, /proc/self/fd). Modelled by hand: closers in recordbuilder.go, unmarshaler.go, block.go, httpblock.go, record.go, warcfile.go reader; diskbuffer file lifetime.",
     ),
     "C12": dict(
@@ -305,7 +305,7 @@ PROPS = {
                            "'the records of one Write lie contiguously in one file' is judged when all its responses name the same file: a size rotation or a concurrent Rotate between two records of a batch moves the rest to the next file (documented: 'if size permits')"],
         design_ref="DESIGN.md section 5, C09/C10",
         level_text="Same protocol model as C10 with a ghost log of what each worker wrote and what each Write returned; theorems for ALL n, k, programs and interleavings: no job is written twice and a job is in the hands of at most one goroutine (linear token), a Write that returned responses had its job written, a Write that returned nil has written nothing and never will. "
-                   "Tie: skeleton theorem C09_skeleton; validation and search: real goroutines under steered and random schedules, files read by the independent scanner: exactly once, at the reported file and offset, batches adjacent and in order, whole files, nothing on disk without a response",
+                   "Tie: skeleton theorem C09_skeleton; validation and search: real goroutines under steered and random schedules, files read by the independent scanner: exactly once, at the reported file and offset, batches adjacent and in order, whole files, nothing on disk without a response Session 3: C09_batch_adjacent / C09_batch_next_file (consecutive Writes of one worker: adjacent in the same file, or first behind the warcinfo of the next)",
         level_note="Trusted: Lean kernel, the go/ast skeleton extractor, Go's channel/mutex semantics, the harness' scanner. Modelled by hand: Proto.",
     ),
     "C11": dict(
@@ -319,7 +319,7 @@ PROPS = {
                            "the detector only reports races on the schedules that actually ran: the workloads repeat each supported shape with 2-8 goroutines; supported shapes include the pipeline in which ONE goroutine owns a file reader and hands every record it gets to a worker goroutine that owns it from then on (workload handoff, with and without spilled blocks; a worker that does not get its complete block is a violation too)"],
         design_ref="DESIGN.md section 5, C11",
         level_text="Lock-discipline check over the shared-access table regenerated from /repo on every run (package-variable writes, field writes of the per-file writer with lock holders and call graph, unsafe external calls, generator and writer-struct writes, pool puts): theorem that the table satisfies the discipline, "
-                   "a generic soundness theorem for the lock closure, and its corollary that every field write is reached only through a method that takes writeLock. Validation and search: workloads of exactly the supported shape under the Go race detector; any report is a violation",
+                   "a generic soundness theorem for the lock closure, and its corollary that every field write is reached only through a method that takes writeLock. Validation and search: workloads of exactly the supported shape under the Go race detector; any report is a violation Session 3: C11_pkg_objects (package-level objects only from allowed makers), C11_reader_keeps_nothing (WarcFileReader assigns no field except in Close)",
         level_note="Partial by nature: this is the property where the proof carries least. Trusted: Lean kernel, the go/ast extractor, the Go race detector and memory model.",
     ),
 }
